@@ -22,6 +22,15 @@ Implementation driven (all in-process, real code):
     `stages` lists of outputs, status sections, stage variables, blueprints; replica counts of two and three digits);
  S. stage indices spelled as text alone (harness/c19_stages.py): _dump_output/parse_output and _dump_status/parse_status on
     arbitrary indices and hand-written texts, against coq/Dosini/Stages.v;
+ P. several loads in ONE process: for every backend the code knows (c19_gen.backend_tables: Dosini.options_for_backend
+    enumerated on the running code) a component of that backend holding all of its backend options is loaded, then probe
+    components (every backend option name as an option or as a variable) are loaded and compared with the model, whose tables
+    were measured before anything was loaded; the tables are measured again after the sequences and at the end of the run,
+    and one workflow of all backends is round-tripped at the end of the run and in a FRESH process (harness/c19_proc.py);
+ E. the environment file alone (harness/c19_envs.py): _dump_experiment_root_conf / environment_to_dict /
+    parse_environment_dicts on generated sets of environments (many without variables), application dependencies and virtual
+    environments, against coq/Dosini/Envs.v; and the section readers (dosini_to_dict, environment_to_dict) on tables with
+    empty sections;
  T. the configparser text layer alone (harness/c19_text.py): tables of sections through the real FlowConfigParser
     (add_section/set/write, read) and hostile raw texts through its reader, against coq/Dosini/Text.v.
 The per-component model comparison of C/D goes through both layers (Model.via_file).
@@ -38,6 +47,8 @@ from common import cstr, clist, copt, cpair
 import c19_gen
 import c19_text
 import c19_stages
+import c19_envs
+import c19_proc
 from c19_gen import flatten, unflatten, cval
 
 PROP = 'C19'
@@ -59,6 +70,14 @@ ASSUMPTIONS = [
     'an option is expressible in the format when the writers emit it or the reader has an ini key for it; the translation tables '
     'are measured with one option at a time, that the options of a group do not depend on each other is checked by the '
     'correspondence on the subsets of every group (stream G) against the per-option model',
+    'the backends and their option tables are enumerated on the code under test (FlowIR.Backends and the string literals of '
+    'Dosini.options_for_backend / validate_component); the tables of the model are measured before anything is loaded and measured '
+    'again after the sequences of stream P and at the end of the run: they must not change within one process; one workflow is '
+    'also loaded in a fresh interpreter (harness/c19_proc.py)',
+    'in a status or output entry an empty list (references, stages) and an absent key are the same entry (the consumers read both '
+    'with .get(key, [])); environment names are compared ignoring case (FlowIR looks them up lower-cased); environments named like the '
+    'reserved section SANDBOX or equal to another one ignoring case are outside the guard of C19_environments_through_file and only '
+    'compared with the model (stream E); a stage without components below the last stage is open finding F19i',
     'stage indices spelled as text (stage10, STAGE10): int() is modelled for decimal digits (coq/Dosini/Stages.v); a sign, blanks or '
     '_ separators after the word stage are not generated',
 ]
@@ -85,7 +104,7 @@ SPECIAL = {
     'resourceManager.config.backend': ['local', 'lsf', 'kubernetes', 'simulator', 'docker'],
     'command.expandArguments': ['none', 'double-quote'],
     'command.interpreter': ['bash', 'javascript'],
-    'command.environment': ['envA', 'gpu-env', 'gpu-debug', 'none', 'environment'],
+    'command.environment': ['envA', 'gpu-env', 'gpu-debug', 'none', 'environment', 'clean', 'clean', 'bare-env'],
     'workflowAttributes.restartHookOn': [['KnownIssue'], ['UnknownIssue', 'SystemIssue'], ['ResourceExhausted', 'KnownIssue']],
     'workflowAttributes.shutdownOn': [['KnownIssue'], ['SystemIssue', 'ExternalError'], []],
     'workflowAttributes.maxRestarts': [-1, 0, 3, 10],
@@ -113,6 +132,14 @@ BOUNDARY_TEXTS = {
     'text_with_carriage_return': ['a\rb', 'dos\r\nline'],
 }
 BOUNDARY_NAMES = ['a:b', 'a=b', '#k', ';k', 'k ']
+
+
+# backend-specific option names that the format keeps as plain variables of the component (e.g. the sim_* options of the
+# simulator): every name Dosini.options_for_backend lists for some backend that is not a key of known_flowir_options()
+BACKENDS = MEASURED['backends'] if MEASURED else {}
+BACKEND_VARS = sorted(set(n for ns in BACKENDS.values() for n in ns) - set(MEASURED['known'])) if MEASURED else []
+BACKEND_VAR_VALUES = ['0', '1:5', '20:40', '2', '24 0', '%(n)s', 'x']
+EMPTY_ENVIRONMENTS = ['clean', 'bare-env']
 
 
 # ------------------------------------------------------------------ helpers
@@ -211,14 +238,24 @@ def explore_components(ctx, cases, tag):
     for case in cases:
         opts, variables = case[0], case[1]
         tag = case[2] if len(case) > 2 else default_tag
+        before = case[3] if len(case) > 3 else []
+        for bo, bv in before:
+            # loads made in this process just before the observed one (state kept between loads must not matter)
+            component_roundtrip(bo, bv)
         ini, out, outvars, exc = component_roundtrip(opts, variables)
         nontrivial = len(opts) + len(variables) >= 1
-        ctx.case([tag, sorted((k, repr(v)) for k, v in opts.items()), sorted(variables.items())], nontrivial)
+        ctx.case([tag, sorted((k, repr(v)) for k, v in opts.items()), sorted(variables.items())] +
+                 ([[sorted(bo.items()), sorted(bv.items())] for bo, bv in before] if before else []), nontrivial)
         ctx.count('%s_components' % tag)
+        for n in variables:
+            if n in BACKEND_VARS:
+                ctx.count('backend_option_as_variable:' + n)
         for p in opts:
             ctx.count('option:' + p)
         cls = classes_of_component(opts, variables)
         desc = {'stream': tag, 'options': opts, 'variables': variables}
+        if before:
+            desc['loaded_before'] = [{'options': bo, 'variables': bv} for bo, bv in before]
         # ---- property predicate on the implementation
         if out is None:
             ctx.fail(desc, 'a written component cannot be loaded again (%s)' % exc, cls)
@@ -278,6 +315,108 @@ def single_option_cases():
     return cases
 
 
+def backend_option_cases(rng):
+    """the options of every backend the code knows (BACKENDS: Dosini.options_for_backend enumerated on the running code): per
+    backend and per name one component of that backend that sets it - as the option the reader stores it under when the name is
+    a key of the format, as a variable of the component otherwise - plus the name alone (no job-type), plus one component with
+    all the names of the backend"""
+    K = kinds()
+    by_key = {K[p][0]: p for p in K}
+    cases = []
+    bpath = by_key.get('job-type')
+    for b, names in sorted(BACKENDS.items()):
+        allo, allv = ({bpath: b} if bpath else {}), {}
+        for n in names:
+            opts, variables = ({bpath: b} if bpath else {}), {}
+            if n in by_key:
+                v = pick_value(rng, by_key[n], K[by_key[n]][2], False)
+                opts[by_key[n]] = v
+                allo[by_key[n]] = copy.deepcopy(v)
+            else:
+                variables[n] = rng.choice(BACKEND_VAR_VALUES)
+                allv[n] = variables[n]
+                cases.append(({}, dict(variables)))
+            cases.append((opts, variables))
+        cases.append((allo, allv))
+    return cases
+
+
+def probe_components(rng):
+    """components whose result must not depend on what was loaded before: every backend option name of every backend (as an
+    option / as a variable), without a job-type, with a job-type of another backend, and a plain one"""
+    K = kinds()
+    by_key = {K[p][0]: p for p in K}
+    bpath = by_key.get('job-type')
+    allv = {n: rng.choice(BACKEND_VAR_VALUES) for n in BACKEND_VARS}
+    allo = {}
+    for names in BACKENDS.values():
+        for n in names:
+            if n in by_key:
+                allo[by_key[n]] = pick_value(rng, by_key[n], K[by_key[n]][2], False)
+    probes = [({}, dict(allv)), (dict(allo), dict(allv, george='of the jungle'))]
+    if bpath:
+        probes.append(({bpath: 'local', 'command.executable': 'echo'}, dict(allv)))
+    if BACKEND_VARS:
+        probes.append(({'command.executable': 'echo'}, {rng.choice(BACKEND_VARS): rng.choice(BACKEND_VAR_VALUES), 'v1': '3'}))
+    return probes
+
+
+def sequence_cases(rng):
+    """stream P: [a component of backend b with every option of b] loaded first, then each probe component; also job-types that
+    do not resolve statically or name no backend"""
+    cases = []
+    firsts = backend_firsts(rng)
+    for first in firsts:
+        for po, pv in probe_components(rng):
+            cases.append((po, pv, 'P', [first]))
+    # all of them, then the probes once more
+    for po, pv in probe_components(rng):
+        cases.append((po, pv, 'P', list(firsts)))
+    return cases
+
+
+def backend_firsts(rng):
+    """one component per backend the code knows, holding every option of that backend; and two whose job-type names no backend"""
+    K = kinds()
+    by_key = {K[p][0]: p for p in K}
+    bpath = by_key.get('job-type')
+    firsts = []
+    for b, names in sorted(BACKENDS.items()) + [('%(backend)s', []), ('no-such-backend', [])]:
+        opts, variables = ({bpath: b} if bpath else {}), {}
+        for n in names:
+            if n in by_key:
+                opts[by_key[n]] = pick_value(rng, by_key[n], K[by_key[n]][2], False)
+            else:
+                variables[n] = rng.choice(BACKEND_VAR_VALUES)
+        firsts.append((opts, variables))
+    return firsts
+
+
+def tables_now(ctx, when, witness):
+    """state kept at class/module level between loads must not change what a later load returns: the tables measured again
+    (the same probes as at import time) are the tables measured before anything was loaded"""
+    try:
+        now = c19_gen.measure()
+    except c19_gen.GenerationError as e:
+        now = {'error': str(e)}
+    diff = sorted(k for k in set(now) | set(MEASURED) if now.get(k) != MEASURED.get(k))
+    ctx.count('tables_measured_again')
+    if diff:
+        detail = {}
+        for k in diff[:3]:
+            a, b = MEASURED.get(k), now.get(k)
+            if isinstance(a, list) and isinstance(b, list):
+                detail[k] = {'gone': [x for x in a if x not in b][:8], 'new': [x for x in b if x not in a][:8]}
+            elif isinstance(a, dict) and isinstance(b, dict):
+                detail[k] = {x: [a.get(x), b.get(x)] for x in sorted(set(a) | set(b), key=str) if a.get(x) != b.get(x)}
+            else:
+                detail[k] = repr(b)[:300]
+        ctx.fail(dict(witness, stream='P', when=when, tables_changed=detail),
+                 'what the reader/writers do with an option depends on what was loaded before in the same process '
+                 '(the tables measured %s differ from the tables measured before anything was loaded: %s)' % (when, ', '.join(diff)), [])
+    return not diff
+
+
 def pick_value(rng, p, pc, instance_safe):
     if instance_safe and p in SPECIAL:
         return copy.deepcopy(rng.choice(SPECIAL[p]))
@@ -298,6 +437,9 @@ def random_component_cases(rng, n):
         for _j in range(rng.choice([0, 0, 1, 2, 4])):
             variables[rng.choice(['george', 'n', 'Count', 'my-var', 'x.y', 'UPPER', 'v2', 'sim_range'])] = \
                 rng.choice(['of the jungle', 3, '2.5', True, '%(other)s', 'a b', '/abs/path'])   # no cyclic definitions
+        if BACKEND_VARS and rng.random() < 0.3:
+            for n in rng.sample(BACKEND_VARS, rng.randrange(1, len(BACKEND_VARS) + 1)):
+                variables[n] = rng.choice(BACKEND_VAR_VALUES)
         cases.append((opts, variables))
     return cases
 
@@ -344,6 +486,16 @@ def gen_doc(rng, cover, hostile=False, long=False):
     paths = sorted(K)
     groups = option_groups()
     nstages = rng.choice([11, 12, 13, 21]) if long else rng.choice([1, 2, 2, 3])
+    # EMPTY members of what the format writes as a section or a list (an environment / a stage / a blueprint / an output / a
+    # status entry without content, empty lists): about a third of the workflows hold some
+    empties = set()
+    if rng.random() < 0.35:
+        kinds_of_empty = ['stage-variables', 'blueprint', 'executors', 'component-variables', 'output', 'output-entry',
+                          'output-stages', 'status', 'status-entry', 'status-references', 'application-dependencies',
+                          'virtual-environments', 'environments']
+        empties = set(rng.sample(kinds_of_empty, rng.choice([1, 2, 4])))
+    # a stage without components below the last one (open finding F19i): rarely
+    hollow = rng.randrange(0, nstages - 1) if nstages >= 2 and not long and rng.random() < 0.04 else None
     rich = set(range(nstages))
     if long:
         rich = {rng.randrange(0, 10), rng.randrange(10, nstages), nstages - 1}
@@ -352,7 +504,7 @@ def gen_doc(rng, cover, hostile=False, long=False):
     todo = list(cover)
     prev = []
     for s in range(nstages):
-        for _ in range(rng.choice([1, 1, 2, 3]) if s in rich else 1):
+        for _ in range(0 if s == hollow else rng.choice([1, 1, 2, 3]) if s in rich else 1):
             name = rng.choice([n for n in names if (s, n) not in [(c['stage'], c['name']) for c in comps]])
             chosen = set(rng.sample(paths, rng.choice([0, 2, 4, 7]))) if s in rich else set()
             take = rng.choice([3, 6, 10]) if s in rich else 0
@@ -389,16 +541,23 @@ def gen_doc(rng, cover, hostile=False, long=False):
             for _j in range(rng.choice([0, 1, 2])):
                 variables[rng.choice(['george', 'v1', 'my-var', 'UPPER', 'x.y'])] = \
                     rng.choice(HOSTILE) if hostile and rng.random() < 0.5 else rng.choice(['of the jungle', 3, '2.5', '%(n)s', 'a b'])
-            if variables:
+            if BACKEND_VARS and rng.random() < 0.25:
+                # options of some backend that the format keeps as variables (sim_* of the simulator)
+                for n in rng.sample(BACKEND_VARS, rng.randrange(1, len(BACKEND_VARS) + 1)):
+                    variables[n] = rng.choice(BACKEND_VAR_VALUES)
+            if variables or ('component-variables' in empties and rng.random() < 0.5):
                 comp['variables'] = variables
+            if 'executors' in empties and 'executors' not in comp and rng.random() < 0.5:
+                comp['executors'] = rng.choice([{'pre': [], 'main': [], 'post': []}, {'main': []}, {}])
             comps.append(comp)
             prev.append((s, name))
     # replication: an aggregating consumer of a replicated producer
     if rng.random() < 0.4 and nstages >= 2:
         first = comps[0]
         first.setdefault('workflowAttributes', {})['replicate'] = rng.choice([10, 12, 101] if long else [2, 3, 11])
-        comps.append({'name': 'Agg', 'stage': nstages - 1, 'command': {'executable': 'cat', 'arguments': 'stage0.%s:ref' % first['name']},
-                      'references': ['stage0.%s:ref' % first['name']], 'workflowAttributes': {'aggregate': True}})
+        src = 'stage%d.%s:ref' % (first['stage'], first['name'])
+        comps.append({'name': 'Agg', 'stage': nstages - 1, 'command': {'executable': 'cat', 'arguments': src},
+                      'references': [src], 'workflowAttributes': {'aggregate': True}})
     if not hostile and rng.random() < 0.06:
         comps[-1].setdefault('workflowAttributes', {})['restartHookOn'] = []
     gvars = dict(REF_VARS)
@@ -424,10 +583,20 @@ def gen_doc(rng, cover, hostile=False, long=False):
                                      'stages': {s: {'stagevar%d' % s: 'S%d' % s, 'n': str(2 + s)} for s in range(nstages)
                                                 if rng.random() < 0.6 or (long and s >= 10)}}},
            'environments': {'default': {}}, 'platforms': ['default']}
+    if 'stage-variables' in empties:
+        for s in rng.sample(range(nstages), rng.randrange(1, nstages + 1)):
+            doc['variables']['default']['stages'][s] = {}
     envs = doc['environments']['default']
+    # environments that define NO variable (a component that selects one runs with the variables Flow injects only: not the
+    # same as an undefined environment, nor as the default one); with 'environments' in empties: nothing but those
+    for en in EMPTY_ENVIRONMENTS:
+        if rng.random() < (0.45 if en == 'clean' else 0.15) or 'environments' in empties:
+            envs[en] = {}
+            if rng.random() < 0.5:
+                rng.choice(comps).setdefault('command', {})['environment'] = en
     # environment names may hold hyphens (section ENV-GPU-ENV) and share their first token
     for en in ['envA', 'gpu-env', 'gpu-debug']:
-        if rng.random() < 0.7:
+        if rng.random() < 0.7 and 'environments' not in empties:
             envs[en] = {'PATH': '/opt/bin:$PATH', 'OMP_NUM_THREADS': rng.choice(['1', '4']), 'DEFAULTS': 'PATH:LD_LIBRARY_PATH'}
             if hostile:
                 envs[en]['HOSTILE'] = rng.choice(HOSTILE)
@@ -435,17 +604,30 @@ def gen_doc(rng, cover, hostile=False, long=False):
         doc['application-dependencies'] = {'default': rng.choice([['App.application'], ['a.application', 'b.application']])}
     if rng.random() < 0.4:
         doc['virtual-environments'] = {'default': ['venvs/one']}
+    if 'application-dependencies' in empties:
+        doc['application-dependencies'] = rng.choice([{'default': []}, {}])
+    if 'virtual-environments' in empties:
+        doc['virtual-environments'] = rng.choice([{'default': []}, {}])
     if rng.random() < 0.5:
         doc['platforms'] = ['default', 'plat']
         doc['variables']['plat'] = {'global': {'q': 'platq', 'extra': 'E'}, 'stages': {0: {'n': '7'}}}
         if long:
             doc['variables']['plat']['stages'][rng.randrange(10, nstages)] = {'n': '70', 'platvar': 'P'}
         doc['environments']['plat'] = {'envA': {'PATH': '/plat/bin:$PATH'}}
+        if rng.random() < 0.4:
+            # an environment that the platform empties / defines empty
+            doc['environments']['plat'][rng.choice(['envA', 'clean', 'plat-only'])] = {}
     if rng.random() < 0.4:
         doc['blueprint'] = {'default': {'global': {'resourceManager': {'config': {'walltime': 480.0}, 'lsf': {'statusRequestInterval': 60}}},
                                         'stages': {0: {'command': {'environment': 'envA'}}}}}
         if long:
             doc['blueprint']['default']['stages'][rng.randrange(10, nstages)] = {'resourceRequest': {'numberThreads': 2}}
+    if 'blueprint' in empties:
+        if 'blueprint' in doc:
+            doc['blueprint']['default']['stages'][rng.randrange(nstages)] = rng.choice([{}, {'command': {}}, {'executors': {'main': []}}])
+        else:
+            doc['blueprint'] = rng.choice([{}, {'default': {}}, {'default': {'global': {}, 'stages': {}}},
+                                           {'default': {'global': {}, 'stages': {rng.randrange(nstages): {}}}}])
     if rng.random() < 0.7 or long:
         # weights with up to four decimals (they are written with str() and read back with float())
         ws = rng.choice({1: [[1.0]], 2: [[0.25, 0.75], [0.125, 0.875], [0.3333, 0.6667]],
@@ -455,9 +637,17 @@ def gen_doc(rng, cover, hostile=False, long=False):
             late = rng.choice([c for c in comps if c['stage'] >= 10])
             doc['status-report'][late['stage']].update({'executable': 'bin/late.sh', 'arguments': '%s:ref' % late['name'],
                                                         'references': ['%s:ref' % late['name']]})
-        if rng.random() < 0.5:
+        if rng.random() < 0.5 and comps[0]['stage'] == 0:
             doc['status-report'][0].update({'executable': 'bin/progress.sh', 'arguments': '-x %s:ref' % comps[0]['name'],
                                             'references': ['%s:ref' % comps[0]['name']]})
+        if 'status-references' in empties:
+            doc['status-report'][rng.randrange(nstages)].update({'executable': 'bin/idle.sh', 'arguments': '', 'references': []})
+    if 'status' in empties and not long:
+        doc['status-report'] = {}
+    elif 'status-entry' in empties and not long:
+        # entries without content: all of them, or all but one
+        keep = rng.choice([None] + list(range(nstages)))
+        doc['status-report'] = {s: ({'stage-weight': 1.0} if s == keep else {}) for s in range(nstages)}
     if rng.random() < 0.7 or long:
         last = comps[-1]
         doc['output'] = {'Result': {'data-in': 'stage%d.%s/out.csv:copy' % (last['stage'], last['name']),
@@ -468,6 +658,12 @@ def gen_doc(rng, cover, hostile=False, long=False):
             # the same file produced by several stages, named by indices of one and of two digits
             some = sorted(set(rng.sample(range(nstages), 3)) | {rng.randrange(10, nstages)})
             doc['output']['Checkpoints'] = {'data-in': 'checkpoint.tar:copy', 'type': 'tar', 'stages': some}
+    if 'output' in empties and not long:
+        doc['output'] = {}
+    if 'output-entry' in empties:
+        doc.setdefault('output', {})['Nothing'] = {}
+    if 'output-stages' in empties:
+        doc.setdefault('output', {})['Anywhere'] = {'data-in': 'stage%d.%s/any.txt:copy' % (comps[-1]['stage'], comps[-1]['name']), 'stages': []}
     platform = 'plat' if 'plat' in doc['platforms'] and rng.random() < 0.6 else 'default'
     return {'doc': doc, 'platform': platform}
 
@@ -515,14 +711,21 @@ def observe(flowir):
             merged = norm_vars(c.get_component_variables(cid))
         except Exception as e:
             cfg, merged = 'EXC ' + type(e).__name__, None
-        obs['components']['stage%d.%s' % cid] = {'configuration': cfg, 'all_variables': merged}
+        # the environment the component runs in: an environment without variables is not an undefined one
+        try:
+            en = cfg['command'].get('environment') if isinstance(cfg, dict) else None
+            env = None if en is None else c.get_environment(en)
+        except Exception as e:
+            env = 'EXC ' + type(e).__name__
+        obs['components']['stage%d.%s' % cid] = {'configuration': cfg, 'all_variables': merged, 'environment': env}
     envs = c.get_environments()
     obs['environments'] = {str(k).lower(): v for k, v in envs.items()}
     obs['application-dependencies'] = c.get_application_dependencies()
     obs['virtual-environments'] = c.get_virtual_environments()
     # a key holding None and an absent key are the same section entry
-    obs['status'] = {k: {a: b for a, b in v.items() if b is not None} for k, v in c.get_status().items()}
-    obs['output'] = {k: {a: b for a, b in v.items() if b is not None} for k, v in c.get_output().items()}
+    # (and so are an empty list - no references, no `stages` - and an absent one: the consumers read both with .get(key, []))
+    obs['status'] = {k: {a: b for a, b in v.items() if b is not None and b != []} for k, v in c.get_status().items()}
+    obs['output'] = {k: {a: b for a, b in v.items() if b is not None and b != []} for k, v in c.get_output().items()}
     return obs
 
 
@@ -612,6 +815,9 @@ def classes_of_workflow(w):
     cl.extend(text_classes(w['doc']))
     known = set(MEASURED['known']) if MEASURED else set()
     doc = w['doc']
+    used = set(c['stage'] for c in doc['components'])
+    if used and used != set(range(max(used) + 1)):
+        cl.append('stage_without_components')
     names = set()
     for c in doc['components']:
         names |= set(c.get('variables', {}))
@@ -622,8 +828,46 @@ def classes_of_workflow(w):
     if names & known:
         cl.append('variable_named_like_an_option')
     # attribution follows what is observed first: a file that cannot be written, then one that cannot be loaded
-    first = ['text_with_bare_percent', 'text_with_carriage_return']
+    first = ['text_with_bare_percent', 'stage_without_components', 'text_with_carriage_return']
     return sorted(cl, key=lambda c: first.index(c) if c in first else len(first))
+
+
+def empty_members(doc):
+    """which kinds of EMPTY members a workflow holds (for the histogram of the run)"""
+    out = set()
+    for plat, envs in (doc.get('environments') or {}).items():
+        for en, e in (envs or {}).items():
+            if not e:
+                out.add('environment')
+                if any(c.get('command', {}).get('environment') == en for c in doc['components']):
+                    out.add('environment-selected-by-a-component')
+    for plat in (doc.get('variables') or {}).values():
+        if any(not v for v in (plat.get('stages') or {}).values()):
+            out.add('stage-variables')
+    bp = doc.get('blueprint')
+    if bp is not None and (not bp or any(not p or not p.get('global', True) or any(not b for b in (p.get('stages') or {}).values())
+                                         for p in bp.values())):
+        out.add('blueprint')
+    for c in doc['components']:
+        if c.get('variables') == {}:
+            out.add('component-variables')
+        if 'executors' in c and (not c['executors'] or any(not v for v in c['executors'].values())):
+            out.add('executors')
+        if c.get('references') == []:
+            out.add('references')
+    for sec in ('output', 'status-report', 'application-dependencies', 'virtual-environments'):
+        if sec in doc and not doc[sec]:
+            out.add(sec)
+        elif sec in doc and any(not v for v in doc[sec].values()):
+            out.add(sec + '-entry')
+    if any(e.get('stages') == [] for e in (doc.get('output') or {}).values()):
+        out.add('output-stages')
+    if any(e.get('references') == [] for e in (doc.get('status-report') or {}).values()):
+        out.add('status-references')
+    used = set(c['stage'] for c in doc['components'])
+    if used and used != set(range(max(used) + 1)):
+        out.add('stage-without-components')
+    return sorted(out)
 
 
 def explore_instances(ctx, workflows, tag):
@@ -644,6 +888,12 @@ def explore_instances(ctx, workflows, tag):
         for sec in ('status-report', 'output', 'blueprint', 'application-dependencies', 'virtual-environments'):
             if sec in doc:
                 ctx.count('with:' + sec)
+        for kind in empty_members(doc):
+            ctx.count('empty:' + kind)
+        for c in doc['components']:
+            for n in c.get('variables', {}):
+                if n in BACKEND_VARS:
+                    ctx.count('backend_option_as_variable:' + n)
         if any('replicate' in c.get('workflowAttributes', {}) for c in doc['components']):
             ctx.count('with:replication')
         cls = classes_of_workflow(w)
@@ -720,7 +970,10 @@ def run(ctx):
                 'platform, blueprint, replication, status, output; D with hostile and multi-line texts, 12% with one text or variable name at '
                 'the boundary of the text layer); T: tables of sections (half inside the guard of C19_text_roundtrip, half with hostile '
                 'names/keys/values) and hostile raw texts through the real FlowConfigParser; non-trivial = at least one option, '
-                'variable, component or entry; distinct by content')
+                'variable, component or entry; distinct by content; A also: per backend of the running code and per name of its option '
+                'table a component of that backend (option or variable), P: a component of each backend loaded first, then probe components '
+                'holding every backend option name; C/D/L: environments without variables in half of the workflows, other EMPTY members '
+                '(stage variables, blueprint, executors, output/status sections and entries, empty lists) in 35%, a stage without components in 4%')
     gen_path = os.path.join(common.COQ, COQ_DIR, 'Generated.v')
     ctx.extra['generated_tables'] = {
         'regenerated_before_proof_build': True,
@@ -739,9 +992,14 @@ def run(ctx):
     quick = ctx.tier == 'quick'
     ccomps, cflows = corpus()
     # one evaluation inside Coq per comparison for the three streams of components
-    explore_components(ctx, [c + ('A',) for c in ccomps + single_option_cases()] +
+    # stream P runs between the other component streams: on a tree that keeps state between loads everything after it is
+    # observed in that state; the tables are measured again right after the sequences and at the very end of the run
+    explore_components(ctx, [c + ('A',) for c in ccomps + single_option_cases() + backend_option_cases(rng)] +
+                       sequence_cases(rng) +
                        [c + ('B',) for c in random_component_cases(rng, 250 if quick else 2500)] +
                        [c + ('G',) for c in group_subset_cases(rng, thorough=not quick)], 'ABG')
+    tables_now(ctx, 'after the components of every backend were loaded (parse_component)',
+               {'loaded_before': [{'backend': b} for b in sorted(BACKENDS)]})
     K = kinds()
     paths = sorted(K)
     flows = list(cflows)
@@ -756,8 +1014,12 @@ def run(ctx):
     flows += [(gen_doc(rng, rng.sample(paths, 12), long=True), 'L') for _ in range(6 if quick else 60)]
     flows += [(gen_doc(rng, rng.sample(paths, 10), hostile=True), 'D') for _ in range(15 if quick else 150)]
     explore_instances(ctx, flows, 'CLD')
+    c19_envs.explore(ctx, 150 if quick else 1500)
     c19_stages.explore(ctx, 60 if quick else 600)
     c19_text.explore(ctx, 120 if quick else 1200, 120 if quick else 1200)
+    # ---- state kept between loads, once more after everything this run has loaded (instance files included)
+    tables_now(ctx, 'at the end of the run (after every load of this run, instance files included)', {})
+    c19_proc.compare_with_fresh_process(ctx)
     used = set(k[7:] for k in ctx.hist if k.startswith('option:'))
     missing = sorted(set(paths) - used)
     ctx.extra['expressible_options_covered'] = '%d/%d' % (len(paths) - len(missing), len(paths))
@@ -773,12 +1035,31 @@ def replay(ctx, path):
         return 2
     if c.get('stream') == 'S':
         c19_stages.explore(ctx, 0, only=c)
+    elif c.get('stream') == 'E':
+        c19_envs.explore(ctx, 0, only=c)
+    elif c.get('stream') == 'P' and 'options' not in c:
+        # state kept between loads: the whole sequence of the run is the input; run the sequences and measure again
+        explore_components(ctx, sequence_cases(ctx.rng), 'P')
+        tables_now(ctx, 'after the components of every backend were loaded (parse_component)', {})
+        c19_proc.compare_with_fresh_process(ctx)
     elif 'table' in c or 'text' in c:
         c19_text.explore(ctx, 0, 0, only_table=c.get('table'), only_text=c.get('text') if 'table' not in c else None)
     elif 'workflow' in c:
         explore_instances(ctx, [int_keys(c['workflow'])], c.get('stream', 'C'))
+        if not (ctx.failures or ctx.disagreements):
+            # not reproduced on its own: the failure may depend on what the run had loaded before (state kept between loads)
+            for bo, bv in backend_firsts(ctx.rng):
+                component_roundtrip(bo, bv)
+            explore_instances(ctx, [int_keys(c['workflow'])], c.get('stream', 'C'))
+            if ctx.failures or ctx.disagreements:
+                print('NOT reproduced in a fresh process; reproduced after a component of every backend was loaded in the same process')
     else:
-        explore_components(ctx, [(c['options'], c.get('variables', {}))], c.get('stream', 'A'))
+        before = [(b['options'], b.get('variables', {})) for b in c.get('loaded_before', [])]
+        explore_components(ctx, [(c['options'], c.get('variables', {}), c.get('stream', 'A'), before)], c.get('stream', 'A'))
+        if not (ctx.failures or ctx.disagreements) and not before:
+            explore_components(ctx, [(c['options'], c.get('variables', {}), c.get('stream', 'A'), backend_firsts(ctx.rng))], c.get('stream', 'A'))
+            if ctx.failures or ctx.disagreements:
+                print('NOT reproduced in a fresh process; reproduced after a component of every backend was loaded in the same process')
     for f in ctx.failures:
         print('REPRODUCED: %s' % f['what'])
     for f in ctx.disagreements:
